@@ -228,7 +228,8 @@ pub enum Op {
     State,
     Dir,
     /// recover a *copy* from the image after `k` OS-level operations plus `cut` bytes of the next
-    Crash { k: usize, cut: usize, pol: Pol },
+    /// `instant`: for a power-loss image, the number of OS operations done when power was lost
+    Crash { k: usize, cut: usize, pol: Pol, instant: Option<usize> },
     /// drop the log (the `BufWriter` flushes)
     Close,
     /// remember / restore the directory content (log must be closed)
@@ -273,7 +274,10 @@ impl Op {
             Op::Range { q, lo, hi } => format!("range {} {} {}", hex(q.as_bytes()), lo.tok(), hi.tok()),
             Op::State => "state".into(),
             Op::Dir => "dir".into(),
-            Op::Crash { k, cut, pol } => format!("crash {} {} {}", k, cut, pol.tok()),
+            Op::Crash { k, cut, pol, instant } => match instant {
+                Some(i) => format!("crash {} {} {} instant={}", k, cut, pol.tok(), i),
+                None => format!("crash {} {} {}", k, cut, pol.tok()),
+            },
             Op::Close => "close".into(),
             Op::Snapshot => "snapshot".into(),
             Op::Restore => "restore".into(),
@@ -315,7 +319,7 @@ impl Op {
             ["rmfile", f, ..] => Some(Op::RmFile(f.parse().ok()?)),
             ["copyfile", a, b, ..] => Some(Op::CopyFile { src: a.parse().ok()?, dst: b.parse().ok()? }),
             ["copyblock", a, b, c, d, ..] => Some(Op::CopyBlock { f1: a.parse().ok()?, i1: b.parse().ok()?, f2: c.parse().ok()?, i2: d.parse().ok()? }),
-            ["crash", k, cut, p, ..] => Some(Op::Crash { k: k.parse().ok()?, cut: cut.parse().ok()?, pol: Pol::parse(p) }),
+            ["crash", k, cut, p, ..] => Some(Op::Crash { k: k.parse().ok()?, cut: cut.parse().ok()?, pol: Pol::parse(p), instant: kv("instant").and_then(|v| v.parse().ok()) }),
             ["append", q, p, rest @ ..] => Some(Op::Append {
                 q: name(q),
                 pos: if *p == "-" { None } else { Some(p.parse().ok()?) },
